@@ -73,9 +73,19 @@ def dispatch_table(ctx, cname, server):
             not handler_calls(p) and
             not any(e.kind in ('store', 'del') for e in p.events))]
         if len(paths) != 1:
-            raise AnalysisError('%s: %d paths for packet type %s; a test in '
-                                'the dispatch is outside the type '
-                                'abstraction' % (construct, len(paths), t))
+            # a gate in front of an arm: exactly one path acts (dispatches or
+            # stores), the others drop the packet quietly.  The arm is
+            # checked; whether dropping is right is the gate rules' business
+            # (C05.R2 / C09 look for the connected-namespace test where the
+            # handler is launched).
+            acting = [q for q in paths if handler_calls(q) or any(
+                e.kind in ('store', 'del') for e in q.events)]
+            if len(acting) != 1 or not all(q.normal for q in paths):
+                raise AnalysisError(
+                    '%s: %d paths for packet type %s; a test in the dispatch '
+                    'is outside the type abstraction' % (construct,
+                                                         len(paths), t))
+            paths = acting
         p = paths[0]
         hc = handler_calls(p)
         ctor = [e for e in p.calls('packet_class')]
